@@ -10,7 +10,7 @@ import os
 
 import z3
 
-from harness.common import B, assemble, eq_bytes, le_bytes
+from harness.common import B, assemble, blist, eq_bytes, le_bytes
 from oracles.isa65816 import BLOCK_MOVES, BRANCHES, ISA, LONG_BRANCHES, MNEMONICS
 from symx import bv
 
@@ -89,8 +89,44 @@ def table_mnemonics():
     return out
 
 
+CONTEXT_WRAPPERS = {
+    "block": ("{", "}"),
+    "scope": (".scope ns {", "}"),
+    "macro": (".macro mm() {", "}\nmm()"),
+    "loop": (".for i := 0, 1 {", "}"),
+}
+CONTEXT_OUTER = {"assign": "name := v", "label": "name:\n.db 0xEE", "symbol-param": None}
+CONTEXT_MNS = [("lda", {1: 0xA5, 2: 0xAD, 3: 0xAF}), ("sta", {1: 0x85, 2: 0x8D, 3: 0x8F}), ("jmp", {2: 0x4C, 3: 0x5C})]
+
+
+def context_source(spec):
+    """An instruction whose operand name is defined outside AND re-defined as a label later in the
+    enclosing inner scope: the operand is the inner label, so its width must hold that address."""
+    open_, close = CONTEXT_WRAPPERS[spec["wrapper"]]
+    outer = CONTEXT_OUTER[spec["outer"]]
+    lines = ["*=0x8000"]
+    if outer:
+        lines.append(outer)
+    lines += [open_, f"{spec['mn']} name"]
+    if spec["order"] == "label-after":
+        lines += ["nop", "name:", ".db 0xEF", close]
+    else:
+        lines = lines[:-1] + ["name:", ".db 0xEF", f"{spec['mn']} name", close]
+    return "\n".join(lines) + "\n"
+
+
 def jobs(tier, seed):
     mns = sorted(set(MNEMONICS) | table_mnemonics())
+    ctx = []
+    for w in CONTEXT_WRAPPERS:
+        for o in ("assign", "label"):
+            for order in ("label-after", "label-before"):
+                for mn, _ in CONTEXT_MNS:
+                    ctx.append({"id": f"context/{w}/{o}/{order}/{mn}", "fam": "context", "wrapper": w, "outer": o, "order": order, "mn": mn})
+    return ctx + _instruction_jobs(tier, seed, mns)
+
+
+def _instruction_jobs(tier, seed, mns):
     cases = ["lower", "upper"]
     if tier == "thorough":
         cases += ["upper-mnemonic", "upper-suffix", "upper-index"]
@@ -118,6 +154,12 @@ def source(mn, shape_i, suffix, case):
 
 
 def run(spec, cx):
+    if spec.get("fam") == "context":
+        v = cx.int("v", 0, 0xFFFFFF)
+        r = assemble(context_source(spec), {"v": v})
+        if r[0] == "ok":
+            return ("ok", [(a, b) for a, b in r[1]])
+        return ("rejected", "error-string" if r[0] == "error" else type(r[1]).__name__)
     shape_i = _pick(cx.choice("shape", list(range(len(SHAPES)))))
     suffix = _pick(cx.choice("suffix", SUFFIXES))
     v = cx.int("v", 0, 0xFFFFFFFF)
@@ -134,7 +176,35 @@ def _value(expr, v):
     return {"v": v, "v+1": v + 1, "v<<8": v << 8, "v*2": v * 2}[expr]
 
 
+def check_context(spec, cx, out):
+    """Accepted => the instruction is [opcode of the width that holds the inner label's address]
+    + that address; the only consistent layout puts the label where that width leaves it."""
+    if out[0] != "ok":
+        # the width inferred while labels are resolved cannot agree with the final operand: failing is right
+        return [("context-may-be-rejected", z3.BoolVal(True))]
+    blocks = out[1]
+    if len(blocks) != 1:
+        return [("context-single-block", z3.BoolVal(False))]
+    bs = blist(blocks[0][1])
+    ops = dict(CONTEXT_MNS)[spec["mn"]]
+    pre = 1 if spec["outer"] == "label" else 0       # the outer label's marker byte
+    alts = []
+    for w, op in ops.items():
+        if spec["order"] == "label-after":
+            addr = 0x8000 + pre + 1 + w + 1              # instruction, nop, then the label
+            exp = ([0xEE] if pre else []) + [op] + [(addr >> (8 * k)) & 0xFF for k in range(w)] + [0xEA, 0xEF]
+        else:
+            addr = 0x8000 + pre                           # label first
+            exp = ([0xEE] if pre else []) + [0xEF, op] + [(addr >> (8 * k)) & 0xFF for k in range(w)]
+        holds = addr < (1 << (8 * w)) and (w == min(ops) or addr >= (1 << (8 * (w - 1))))
+        if holds and len(exp) == len(bs):
+            alts.append(z3.And(*[x == y for x, y in zip(bs, exp)]))
+    return [("operand-width-holds-the-value-it-encodes", z3.Or(*alts) if alts else z3.BoolVal(False))]
+
+
 def check(spec, cx, out):
+    if spec.get("fam") == "context":
+        return check_context(spec, cx, out)
     mn = spec["mn"]
     kind, shape_i, suffix = out[0], out[1], out[2]
     name, text, isa_shape, vexpr = SHAPES[shape_i]
